@@ -136,6 +136,7 @@ class _SchemaDirectivesApplicationVisitor(SchemaVisitor):
     ):
 
         self._defs = {}  # type: Dict[str, Tuple[Directive, TSchemaDirective]]
+        self._defined = set(directives)
 
         for sd in schema_directives:
             if not isinstance(sd, type) or not issubclass(sd, SchemaDirective):
@@ -171,6 +172,9 @@ class _SchemaDirectivesApplicationVisitor(SchemaVisitor):
             try:
                 directive_def, schema_directive_cls = self._defs[name]
             except KeyError:
+                if name in self._defined:
+                    # Defined by the document, nothing to apply.
+                    continue
                 raise SDLError('Unknown directive "@%s"' % name, [node])
 
             if loc not in directive_def.locations:
